@@ -135,6 +135,35 @@ func TestVerifC11(t *testing.T) {
 		}
 	}
 
+	// ---- (2b) the account group: one identity per store, whichever call hands it out, and it is the account key /
+	// the store's device key; two devices of the account agree on the group and the member, and differ in the device
+	for _, a := range accts[:3] {
+		var devKeys []string
+		var groupsSeen []string
+		for _, d := range []string{"1", "2"} {
+			p := newParty(seed, a, d, 2, 2, false)
+			g, md, err := p.st.GetGroupForAccount()
+			must(err)
+			md2, err := p.st.GetOwnMemberDeviceForGroup(g)
+			must(err)
+			g3, md3, err := p.cloneParty().st.GetGroupForAccount()
+			must(err)
+			acct := rawPub(p.accountPub())
+			dev := rawPub(detKey(seed, "dev/"+a+"/"+d).GetPublic())
+			ok := rawPub(md.Member()) == acct && rawPub(md2.Member()) == acct && rawPub(md3.Member()) == acct &&
+				rawPub(md.Device()) == dev && rawPub(md2.Device()) == dev && rawPub(md3.Device()) == dev && groupSummary(g) == groupSummary(g3)
+			rep.Eval(fmt.Sprintf("account-group-identity/%v", ok))
+			if !ok {
+				viol("account-group-identity-differs", fmt.Sprintf("account %s device %s: GetGroupForAccount hands out member %.12s device %.12s, GetOwnMemberDeviceForGroup(account group) member %.12s device %.12s, after reopen device %.12s; account key %.12s, device key %.12s", a, d, rawPub(md.Member()), rawPub(md.Device()), rawPub(md2.Member()), rawPub(md2.Device()), rawPub(md3.Device()), acct, dev), []string{a, d})
+			}
+			devKeys = append(devKeys, rawPub(md.Device()))
+			groupsSeen = append(groupsSeen, groupSummary(g))
+		}
+		if groupsSeen[0] != groupsSeen[1] || devKeys[0] == devKeys[1] {
+			viol("account-group-across-devices", fmt.Sprintf("account %s: same group on both devices=%v, distinct device keys=%v", a, groupsSeen[0] == groupsSeen[1], devKeys[0] != devKeys[1]), []string{a})
+		}
+	}
+
 	// ---- (3) all sequences up to depth 4/5 over derive / export / import / re-derive on an original store P and a fresh store Q
 	type st struct {
 		P, Q *party
